@@ -42,9 +42,47 @@ COMPONENTS = {
 ENDKINDS = ["obj", "obj", "obj", "none", "none", "zero", "false", "empty"]  # None / falsy endmarkers are endmarkers too
 
 
+def gen_remat(rng, tier):
+    """The receiver registers a callback on a sub-channel and drops the channel object (the callback stays active);
+    then the same channel comes back to it inside an item and it keeps that new object for the same id alive: the
+    callback, not the new object's queue, still gets every item and the endmarker."""
+    transport = rng.choices(["popen", "bare", "socket", "proxy"], [55, 10, 20, 15])[0]
+    backend = rng.choice(["thread", "thread", "main_thread_only", "gevent"])
+    specs, gwi = L.gateways_for(transport, backend)
+    knobs = L.gen_knobs(rng, small_ok=False)
+    if transport != "popen" and knobs["pipe_cap"] < 4096:
+        knobs["pipe_cap"] = 4096
+    want_end = rng.random() < 0.7
+    n1, n2 = rng.randrange(0, 3), rng.randrange(1, 5)
+    main = [["exec", "c0", 1, gwi], ["newchan", "s"], ["sendchan", "c0", "s", "c0:i2w:0:chan", "bare"],
+            ["spawn", 2], ["join", 2, 900], ["latch_set", "fin"], ["terminate", 10.0]]
+    W = [["recvchan", "c0", "s"]]
+    for k in range(n1):
+        W.append(["send", "s", f"s:w2i:1:{k}", L.gen_fill(rng)])
+    W += [["latch_wait", "dropped", 300], ["sendchan", "c0", "s", "c0:w2i:1:chan2", rng.choice(["bare", "list", "dict"])],
+          ["latch_wait", "back", 300]]
+    for k in range(n1, n1 + n2):
+        W.append(["send", "s", f"s:w2i:1:{k}", L.gen_fill(rng)])
+        if rng.random() < 0.2:
+            W.append(["yield", rng.randrange(1, 4)])
+    W += [["latch_set", "sent-m"], ["latch_set", "sent-all"], ["close", "s"], ["latch_set", "closed"], ["latch_wait", "fin", 900]]
+    R = [["setcb", "s", want_end, None, None, None, "cb-end"], ["drop", "s"], ["gc"], ["latch_set", "dropped"],
+         ["recvchan", "c0", "s2"], ["latch_set", "back"],
+         (["latch_wait", "cb-end", 600] if want_end else ["waitclose", "s2", 600]), ["sleep", 0.5]]
+    actors = [{"side": "i", "gw": gwi, "chan": None, "ops": main}, {"side": "w", "gw": gwi, "chan": "c0", "ops": W},
+              {"side": "i", "gw": gwi, "chan": "c0", "ops": R}]
+    return {"gateways": specs, "actors": actors, "knobs": knobs, "strategy": L.gen_strategy(rng),
+            "preempt": L.gen_preempt(rng, 3000), "preempt_at": L.gen_preempt_at(rng, ["setcallback", "_local_close", "_local_receive", "_no_longer_opened", "new", "__del__"]),
+            "faults": [], "transport": transport, "backend": backend, "gwi": gwi, "mode": "single", "ending": "close_sub",
+            "subject": "s", "recv_side": "i", "dir": "w2i", "R": 2, "S": 1, "want_end": want_end, "pre": 0, "pos": "remat",
+            "n": n1 + n2, "race": False, "lastmsg": False, "endmarker_kind": rng.choice(ENDKINDS)}
+
+
 def gen(rng, tier):
     if rng.random() < 0.2:
         return gen_multi(rng, tier)
+    if rng.random() < 0.08:
+        return gen_remat(rng, tier)
     ending = rng.choice(["endbody", "endbody", "raise", "close_sub", "close_sub", "kill"])
     # the peer's end of a sub channel can also go away by being dropped while it has a callback of its own: the
     # receiving side is told "last message" and stays in the sendonly state
